@@ -437,7 +437,10 @@ def filter_bookkeeping_rule(ctx, rule):
     drops = [s for s in call_sites(f, lambda p, c: p.endswith("HashMap::remove")) if "self.tsi" in show(s.expr[2][0])]
     ok = bool(rms) and bool(drops) and all(show(strip_ref(s.expr[2][1])) == "endpoint" for s in rms)
     for s in drops:
-        if not any(a[0] == "true" and t and "TSI::is_empty" in show(a[1]) for (a, t) in fl.facts_at(s.bb)) or re.sub(r"[&()]", "", show(s.expr[2][1])) != "tsi":
+        # `if entry.is_empty()` through the accessor TSI::is_empty, or - when that one-line accessor was folded into this function - the test
+        # `entry.endpoints.is_empty()` itself
+        if not any(a[0] == "true" and t and ("TSI::is_empty" in show(a[1]) or re.search(r"::is_empty\(&?[\w~.()&@:]*\.endpoints\)$", show(a[1], 200)))
+                   for (a, t) in fl.facts_at(s.bb)) or re.sub(r"[&()]", "", show(s.expr[2][1])) != "tsi":
             ok = False
         if not all(r.bb != s.bb and fl.dominates(r.bb, s.bb) for r in rms):
             ok = False
@@ -445,9 +448,16 @@ def filter_bookkeeping_rule(ctx, rule):
         rule.ok("TSIFilter::remove", "TSI::remove(endpoint), then drop the TSI entry iff it is empty", loc(f.sp))
     else:
         rule.violation("TSIFilter::remove", "the TSI entry is not dropped exactly when its last endpoint reference goes (or another key is removed)", loc(f.sp))
-    ie = prog.fn(TSI + "::is_empty")
-    rets = ret_assign_blocks(ie.body, lambda e: True)
-    if rets and all(e[0] == "call" and e[1].endswith("::is_empty") and "self.endpoints" in show(e[2][0]) for _, e in rets):
+    ie = prog.funcs.get(TSI + "::is_empty")
+    if ie is None:
+        # the accessor was folded into its only user (checked just above on the test itself)
+        rets = []
+        rule.ok("TSI::is_empty", "folded into TSIFilter::remove", loc(f.sp))
+    else:
+        rets = ret_assign_blocks(ie.body, lambda e: True)
+    if ie is None:
+        pass
+    elif rets and all(e[0] == "call" and e[1].endswith("::is_empty") and "self.endpoints" in show(e[2][0]) for _, e in rets):
         rule.ok("TSI::is_empty", "endpoints.is_empty()", loc(ie.sp))
     else:
         rule.violation("TSI::is_empty", "returns %s" % [show(e, 50) for _, e in rets], loc(ie.sp))
